@@ -41,6 +41,10 @@
 (*                b = prefix), "DS" (---), "DE" (...), "X" (content)       *)
 (*      ndocs   : number of documents that were dumped                     *)
 (*      reread  : << outcome >>  what each of the library's readers said   *)
+(*                (events: yaml.parse with Loader and with CLoader)        *)
+(*      recompose : << outcome >> the same for the composition of the      *)
+(*                events into documents (yaml.compose_all)                 *)
+(*      refs    : the anchors and aliases the CALLER supplied (emit only)  *)
 (*      ctoks, cevents : canonical token classes of the text / the events  *)
 (*                that were dumped (used by clause g, see Canonical.tla)   *)
 (***************************************************************************)
@@ -128,8 +132,31 @@ ClauseF(o, obs) == \A i \in DOMAIN obs.entries : EntryF(o, obs.entries[i])
 
 (***************************************************************************)
 (* (a) the output is text the library's own reader accepts.                *)
+(*     The reader judges a TEXT in the stages characters - tokens - events *)
+(*     (obs.reread: yaml.parse to the end) and, per document, the          *)
+(*     composition of the events into a node graph (obs.recompose:         *)
+(*     yaml.compose_all to the end), which demands that every alias names  *)
+(*     an anchor that precedes it in ITS OWN document and that no anchor   *)
+(*     occurs twice in a document.  (Constructors judge tags and values,   *)
+(*     not the text: they are not part of this clause.)                    *)
+(*     With dump_all / serialize_all the library chooses anchors and       *)
+(*     aliases itself.  A caller of emit() supplies them: obs.refs is the  *)
+(*     sequence of <<"doc">>, <<"anchor", name>>, <<"alias", name>> of the *)
+(*     events he dumped (empty for the other calls).  If he dumps an alias *)
+(*     without an anchor before it in the same document, or the same       *)
+(*     anchor twice in a document, a text that says just that is what he   *)
+(*     asked for and the composition stage is not held against the output. *)
 (***************************************************************************)
-ClauseA(obs) == obs.outcome = "ok" /\ \A i \in DOMAIN obs.reread : obs.reread[i] = "ok"
+RefsClosed(refs) ==
+  \A i \in DOMAIN refs :
+     LET SameDoc(j) == \A k \in j .. i : refs[k][1] # "doc"
+         Before == {j \in 1 .. i - 1 : refs[j][1] = "anchor" /\ refs[j][2] = refs[i][2] /\ SameDoc(j)}
+     IN  CASE refs[i][1] = "alias"  -> Before # {}
+           [] refs[i][1] = "anchor" -> Before = {}
+           [] OTHER -> TRUE
+ClauseA(obs) == /\ obs.outcome = "ok"
+                /\ \A i \in DOMAIN obs.reread : obs.reread[i] = "ok"
+                /\ RefsClosed(obs.refs) => \A i \in DOMAIN obs.recompose : obs.recompose[i] = "ok"
 
 (***************************************************************************)
 (* first failing clause ("-" if none); (g) is judged by Canonical.tla      *)
